@@ -177,7 +177,9 @@ func (c *aggregateCursor) inNextWindowWithInfo(currRecord *record.Record) error 
 		return nil
 	}
 	if nextRecord.RowNums() == 0 {
-		c.inNextWin = true
+		// nothing is known about the window of the rows that follow an empty record: with GROUP BY time the
+		// current window is closed here (partial results of one window are merged again by the caller)
+		c.inNextWin = !c.schema.Options().HasInterval()
 		return nil
 	}
 
@@ -321,7 +323,9 @@ func (c *aggregateCursor) inNextWindow(currRecord *record.Record) error {
 		return nil
 	}
 	if nextRecord.RowNums() == 0 {
-		c.inNextWin = true
+		// nothing is known about the window of the rows that follow an empty record: with GROUP BY time the
+		// current window is closed here (partial results of one window are merged again by the caller)
+		c.inNextWin = !c.schema.Options().HasInterval()
 		return nil
 	}
 
